@@ -11,8 +11,14 @@ import (
 	"flag"
 	"fmt"
 	"math"
+	"net/http"
+	"net/http/httptest"
 	"os"
 	"path"
+	"path/filepath"
+	"reflect"
+	"regexp"
+	"runtime"
 	"sort"
 	"strconv"
 	"strings"
@@ -23,6 +29,7 @@ import (
 	"github.com/pingcap/kvproto/pkg/pdpb"
 	"github.com/tikv/pd/pkg/errs"
 	"github.com/tikv/pd/server"
+	"github.com/tikv/pd/server/api"
 	"github.com/tikv/pd/server/cluster"
 	"github.com/tikv/pd/server/config"
 	"github.com/tikv/pd/server/core"
@@ -55,7 +62,7 @@ type fault struct {
 }
 
 type op struct {
-	K      string // put labels remove up bury check weight clean heartbeat region
+	K      string // put labels remove up bury check weight clean heartbeat region setenv routes
 	Grpc   bool
 	P      payload
 	ID     uint64
@@ -162,6 +169,10 @@ func (o op) coq() string {
 		return fmt.Sprintf("OHeartbeat %s %s", coqfmt.ZU(o.ID), o.F.coq())
 	case "region":
 		return fmt.Sprintf("ORegion %s %s", coqfmt.ZU(o.R), idsCoq(o.Stores))
+	case "routes":
+		// requests to the per-store routes of the HTTP API the model has no operation for (none in the tree the model was written
+		// against): whatever they are, they must leave every store's record as it is - in the model the step changes nothing
+		return "OSetEnv (Env [] false true)"
 	case "setenv":
 		ls := make([]string, len(o.Loc))
 		for i, l := range o.Loc {
@@ -188,6 +199,7 @@ type world struct {
 	prevServed, curServed, curStored map[uint64]rec
 	R                                *res.Result
 	notes                            map[string]bool
+	api                              http.Handler
 }
 
 func storeGroup(key string) (string, bool) {
@@ -496,6 +508,9 @@ func (w *world) call(o *op, fillOrder bool) string {
 		}
 	case "setenv":
 		w.setEnv(o.Loc, o.Strict, o.PR)
+		r = "ROk"
+	case "routes":
+		w.unknownStoreRoutes(o.ID)
 		r = "ROk"
 	case "labels":
 		r = w.errRes(w.rc.UpdateStoreLabels(o.ID, mkLabels(o.Labels), o.Force))
@@ -1107,6 +1122,12 @@ func (w *world) runRestart(r *rng.R, n int, sparse bool) restartRec {
 	opStep(op{K: "weight", ID: beyond(), LW: 3, RW: 4})
 	opStep(op{K: "labels", ID: beyond(), Labels: []lab{{"zone", "z9"}}})
 	restart()
+	// a store that is Up and has not sent a heartbeat to this leader yet: no request of the API may bury it
+	upOne := beyond()
+	for t := 0; t < 50 && (containsID(tombs, upOne) || containsID(offl, upOne)); t++ {
+		upOne = beyond()
+	}
+	opStep(op{K: "routes", ID: upOne})
 	// the new leader must know every record: a tombstone stays refused, a live address stays taken, an offline store can come up
 	for _, id := range tombs[:3] {
 		opStep(op{K: "put", Grpc: true, P: payload{ID: id, Addr: fmt.Sprintf("s%d", id), Ver: "4.0.0"}})
@@ -1147,6 +1168,61 @@ func (rc restartRec) coq() string {
 	}
 	cv, _ := verTriple(rc.In.CV)
 	return "(" + cv + ", " + rc.In.Boot.coq() + ",\n  " + coqfmt.List(hs) + ",\n  " + coqfmt.List(rc.Obs) + ")"
+}
+
+func containsID(xs []uint64, x uint64) bool {
+	for _, y := range xs {
+		if y == x {
+			return true
+		}
+	}
+	return false
+}
+
+// the per-store routes the operations of the model stand for (server/api/router.go)
+var modelledStoreRoutes = map[string]bool{
+	"DELETE /store/{id}": true, "POST /store/{id}/state": true, "POST /store/{id}/label": true,
+	"POST /store/{id}/weight": true, "POST /store/{id}/limit": true,
+}
+
+var routeRe = regexp.MustCompile(`HandleFunc\("(/store/\{id\}[^"]*)",[^\n]*\.Methods\(([^)]*)\)`)
+
+// unknownStoreRoutes reads the route table of the code under test (router.go next to api.NewHandler) and sends a request - plain, with
+// ?force, and with ?force=true - to every writing route under /store/{id} the model has no operation for.
+func (w *world) unknownStoreRoutes(id uint64) {
+	file, _ := runtime.FuncForPC(reflect.ValueOf(api.NewHandler).Pointer()).FileLine(reflect.ValueOf(api.NewHandler).Pointer())
+	b, err := os.ReadFile(filepath.Join(filepath.Dir(file), "router.go"))
+	if err != nil {
+		w.R.Count("routes:router.go-not-readable")
+		return
+	}
+	if w.api == nil {
+		h, _, err := api.NewHandler(context.Background(), w.s)
+		if err != nil {
+			panic(err)
+		}
+		w.api = h
+	}
+	n := 0
+	for _, m := range routeRe.FindAllStringSubmatch(string(b), -1) {
+		for _, meth := range strings.Split(m[2], ",") {
+			meth = strings.Trim(strings.TrimSpace(meth), `"`)
+			if meth == "GET" || modelledStoreRoutes[meth+" "+m[1]] {
+				continue
+			}
+			n++
+			for _, q := range []string{"", "?force", "?force=true"} {
+				u := "/pd/api/v1" + strings.Replace(m[1], "{id}", strconv.FormatUint(id, 10), 1) + q
+				req := httptest.NewRequest(meth, u, strings.NewReader("{}"))
+				rw := httptest.NewRecorder()
+				w.api.ServeHTTP(rw, req)
+				w.R.Count(fmt.Sprintf("routes:unmodelled-store-route-answered-%d", rw.Code/100*100))
+			}
+		}
+	}
+	if n == 0 {
+		w.R.Count("routes:every-writing-store-route-is-modelled")
+	}
 }
 
 // restart: a new leader on the same storage: the cluster is stopped, the cache emptied, and LoadClusterInfo runs again
